@@ -2635,6 +2635,9 @@ digest_auth_check_all_inner (struct MHD_Connection *connection,
     MHD_PANIC (_ ("Wrong 'malgo3' value, API violation"));
   /* Check 'mqop' value */
   c_qop = params->qop;
+  /* Unknown QOP token: no bits are set, the next check cannot catch it */
+  if (MHD_DIGEST_AUTH_QOP_INVALID == c_qop)
+    return MHD_DAUTH_WRONG_QOP;
   /* Check whether client's QOP is allowed by function parameter */
   if (((unsigned int) c_qop) !=
       (((unsigned int) c_qop) & ((unsigned int) mqop)))
